@@ -22,6 +22,10 @@ def run(run):
     tier_q = run.tier == "quick"
     dis, fails = [], []
     gens = [qgen.gen(run.rng, run.rng.choice([0, 1, 1, 2, 2, 3])) for _ in range(400 if tier_q else 6000)]
+    # many different WITH queries one after the other in one process: every statement's result is its own
+    for _ in range(160 if tier_q else 2000):
+        qw = qgen.Q(run.rng, run.rng.choice([1, 1, 2]), force_with=True)
+        gens.append((qw.build(top=True), qw))
     texts = [g[0] for g in gens]
     reqs, mo, im = run_walk(run, "generated", texts, WHICH)
     dis += stmt.tie(run, "WALK generated", reqs, mo, im, [t for t in texts for _ in WHICH])
